@@ -171,13 +171,16 @@ def check_variant(sp, v, do_even, do_faithful):
             mats = np.array([np.asarray(rep[cc.word_names(w, names)], dtype=float) for w in ws])
             n += len(ws)
             flat = mats.reshape(len(ws), -1)
-            scale = 1.0 + np.abs(flat).max()
+            # "equal" = equal up to rounding: distinct elements of a discrete group can be close relative to
+            # the size of the entries, so the threshold is per pair and only just above float noise
+            rs = 1.0 + np.abs(flat).max(axis=1)
             for i0 in range(0, len(ws), 256):
                 d = np.abs(flat[i0:i0 + 256, None, :] - flat[None, :, :]).max(axis=2)
                 idx = np.arange(i0, min(i0 + 256, len(ws)))
                 d[np.arange(len(idx)), idx] = np.inf
-                if (d < 1e-7 * scale).any():
-                    a, b = np.argwhere(d < 1e-7 * scale)[0]
+                thr = 1e-10 * np.maximum.outer(rs[i0:i0 + 256], rs)
+                if (d < thr).any():
+                    a, b = np.argwhere(d < thr)[0]
                     bad.append(("canonical_images_distinct", "normal forms %r and %r have equal images" % (J(ws[i0 + a]), J(ws[b]))))
                     break
         except Exception as e:
@@ -240,7 +243,7 @@ def run(run, replay=None):
     batches.append(("rank3", r3, [8 if quick else 10] * len(r3), 4 if not quick else 2, True))
     # rank 4 groups with a name: A4, B4, D4, F4, H4, affine A~3, B~3, C~3, compact hyperbolic [5,3,5], [4,3,5], [3,5,3]
     named4 = [cc.sym(4, v) for v in ([3, 2, 2, 3, 2, 3], [4, 2, 2, 3, 2, 3], [3, 2, 2, 3, 3, 2], [3, 2, 2, 4, 2, 3], [5, 2, 2, 3, 2, 3],
-                                     [3, 2, 3, 3, 2, 3], [3, 2, 2, 3, 3, 4], [4, 2, 2, 3, 2, 4], [5, 2, 2, 3, 2, 5], [4, 2, 2, 3, 2, 5],
+                                     [3, 2, 3, 3, 2, 3], [2, 3, 2, 3, 2, 4], [4, 2, 2, 3, 2, 4], [5, 2, 2, 3, 2, 5], [4, 2, 2, 3, 2, 5],
                                      [3, 2, 2, 5, 2, 3])]
     batches.append(("rank4named", named4, [5 if quick else 7] * len(named4), 2, True))
     if quick:
@@ -270,10 +273,13 @@ def run(run, replay=None):
     run.assumptions += [
         "entries 2..7 and infinity (rank 2: 2..12); words up to the radius of each batch: " +
         ", ".join("%s: %d matrices, L=%d" % (t, len(ms), max(rs)) for (t, ms, rs, _, _) in batches),
-        "rank 3: all 343 labelled matrices; rank 4: %s; rank 5: seeded random sample (labels weighted towards small ones)"
+        "rank 3: all 343 labelled matrices; rank 4: 11 named groups (A4 B4 D4 F4 H4, affine, compact hyperbolic) + %s; "
+        "rank 5: seeded random sample (labels weighted towards small ones)"
         % ("seeded random sample" if quick else "all matrices up to relabelling + a deeper random sample"),
         "every pair of generators is listed in a diagram (label 2 included): the constructor requires it",
-        "even-length variant observed through enumerate_words / accepts on two-letter labels; not built for rank 5 (automaton_multiple is quadratic)",
+        "even-length variant observed through enumerate_words / accepts on two-letter labels; not built for rank 5 (cost)",
+        "an automaton must be returned within 60 s of CPU time, its even-length variant within 3 x the measured time of the base automaton + 20 s",
+        "shipped files cox237/334/3334/535: the assignment of labels to pairs of letters is read off the file (relabelling freedom)",
         "lexicographic order: order of the generators in ordered_gens (matrix index order)",
     ]
     workers = min(8, core.NCPU)
